@@ -265,6 +265,15 @@ def step (line : String) : String :=
     match hexArg h with
     | some bs => "ok " ++ showHex (Row.decodeHexStr (String.ofList (bs.map Char.ofNat)))
     | none => "bad-op"
+  | ["envu64", d, env] =>
+    -- wos.EnvUint64.UnmarshalJSON on the JSON token `d` (bytes in hex); `env` = value of the named variable
+    match hexArg d, hexArg env with
+    | some db, some eb =>
+      match EnvNum.envUint64 eb db with
+      | .ok n => s!"ok {n}"
+      | .err => "err"
+      | .exit => "exit"
+    | _, _ => "bad-op"
   | ["safe", h] =>
     match hexArg h with
     | some bs => if Safe.safe (fun _ => false) bs then "ok" else "err"
